@@ -11,10 +11,12 @@ package storage
 
 // A waiter that sits in a heap has not been answered yet: its channel (capacity 1) is empty and open,
 // so the event loop can always answer it without blocking.
-//@ pure func itemOK(x *item) bool = x != nil && x.ctx != nil && x.waitCh != nil && cap(x.waitCh) == 1 && len(x.waitCh) == 0 && !chanClosed(x.waitCh)
+// (chanOwner: every waiter owns its channel, so different waiters have different channels)
+//@ uninterp func chanOwner(ch Ref) Ref
+//@ pure func itemOK(x *item) bool = x != nil && x.ctx != nil && x.waitCh != nil && cap(x.waitCh) == 1 && len(x.waitCh) == 0 && !chanClosed(x.waitCh) && chanOwner(x.waitCh) == x
 //@ pure func itemsOK(h *heap.Heap[*item]) bool = forall k int :: 0 <= k && k < len(h.Slice) ==> itemOK(h.Slice[k])
 // waiters in a heap are pairwise different objects with pairwise different channels
-//@ pure func distinct(h *heap.Heap[*item]) bool = forall k int, l int :: 0 <= k && k < l && l < len(h.Slice) ==> h.Slice[k] != h.Slice[l] && h.Slice[k].waitCh != h.Slice[l].waitCh
+//@ pure func distinct(h *heap.Heap[*item]) bool = forall k int, l int :: 0 <= k && k < l && l < len(h.Slice) ==> h.Slice[k] != h.Slice[l]
 // heap order by the CURRENT revisions of the waiters
 //@ pure func revOKAt(h *heap.Heap[*item], p int, n int) bool = (2*p+1 < n ==> h.Slice[2*p+1].revision >= h.Slice[p].revision) && (2*p+2 < n ==> h.Slice[2*p+2].revision >= h.Slice[p].revision)
 //@ pure func revHeapOK(h *heap.Heap[*item]) bool = forall p int :: 0 <= p && p < len(h.Slice) ==> revOKAt(h, p, len(h.Slice))
@@ -54,8 +56,10 @@ package storage
 //@   assumed
 //@   requires h != nil && 0 <= i && i < len(h.Slice) && revHeapOK(h)
 //@   ensures revHeapOK(h) && len(h.Slice) == old(len(h.Slice)) - 1 && result == old(h.Slice[i])
-//@   ensures [perm] forall k int :: 0 <= k && k < len(h.Slice) ==> exists l int :: 0 <= l && l < old(len(h.Slice)) && l != i && h.Slice[k] == old(h.Slice[l])
-//@   ensures [keep] forall k int :: 0 <= k && k < i && k < len(h.Slice) ==> h.Slice[k] == old(h.Slice[k]) || (exists l int :: i < l && l < old(len(h.Slice)) && h.Slice[k] == old(h.Slice[l]))
+//@   ensures [from]  forall k int :: 0 <= k && k < len(h.Slice) ==> exists l int :: 0 <= l && l < old(len(h.Slice)) && l != i && h.Slice[k] == old(h.Slice[l])
+//@   ensures [above] forall k int :: i < k && k < len(h.Slice) ==> exists l int :: i < l && l < old(len(h.Slice)) && h.Slice[k] == old(h.Slice[l])
+//@   ensures [nodup] old(distinct(h)) ==> distinct(h)
+//@   ensures [place] h.Slice.arr == old(h.Slice.arr) && h.Slice.off == old(h.Slice.off) && cap(h.Slice) == old(cap(h.Slice))
 //@   modifies h.Slice, elems(h.Slice)
 
 // The periodic sweep over one table's heap (contract from the property): afterwards every waiter
@@ -67,9 +71,7 @@ package storage
 //@   ensures [C11.sweep.unanswered] itemsOK(h)
 //@   ensures [C11.sweep.order]      revHeapOK(h)
 //@   ensures [C11.sweep.expired]    forall k int :: 0 <= k && k < len(h.Slice) ==> ctxErr(h.Slice[k].ctx) == nil
-//@   modifies h.Slice, elems(h.Slice), family(CH_len), family(F_storage_item_revision)
-//@   loop 0 invariant 0 <= i && i <= l && l == len(h.Slice) && sameSlice(h.Slice, old(h.Slice)) && distinct(h)
-//@   loop 0 invariant forall k int :: 0 <= k && k < len(h.Slice) ==> h.Slice[k] == old(h.Slice[k]) && h.Slice[k] != nil && h.Slice[k].ctx != nil && h.Slice[k].waitCh != nil && cap(h.Slice[k].waitCh) == 1 && !chanClosed(h.Slice[k].waitCh)
-//@   loop 0 invariant forall k int :: i <= k && k < len(h.Slice) ==> len(h.Slice[k].waitCh) == 0 && h.Slice[k].revision == old(h.Slice[k].revision)
-//@   loop 0 invariant forall k int :: 0 <= k && k < i ==> (ctxErr(h.Slice[k].ctx) != nil ? h.Slice[k].revision == 0 && len(h.Slice[k].waitCh) == 1 : len(h.Slice[k].waitCh) == 0 && h.Slice[k].revision == old(h.Slice[k].revision))
-//@   loop 1 invariant 0 <= i && i <= l && len(h.Slice) >= l - i && revHeapOK(h)
+//@   modifies h.Slice, elems(h.Slice), family(CH_len)
+//@   loop 0 invariant -1 <= i && i < len(h.Slice) && revHeapOK(h) && distinct(h) && itemsOK(h)
+//@   loop 0 invariant h.Slice.arr == old(h.Slice.arr) && h.Slice.off == old(h.Slice.off) && cap(h.Slice) == old(cap(h.Slice)) && len(h.Slice) <= old(len(h.Slice))
+//@   loop 0 invariant forall k int :: i < k && k < len(h.Slice) ==> ctxErr(h.Slice[k].ctx) == nil
